@@ -103,6 +103,8 @@ func TimeLE(s1, n1, s2, n2 int64) bool { return s1 < s2 || (s1 == s2 && n1 <= n2
 
 func DrawCount() int                    { return 0 }
 func IsDraw(b []byte, k int) bool       { return true }
+func DrawIndexOf(b []byte) int          { return -1 }
+func SameTerms(a, b []byte) bool        { return BytesEq(a, b) }
 func DrawLen(k int) int                 { return 0 }
 func SealCount() int                    { return 0 }
 func SealKey(i int) []byte              { return nil }
